@@ -50,21 +50,53 @@ def run(res, tier, seed):
         reqs.append(pipe_req("lints,run", [("m.s", s)]))
         reqs.append(pipe_req("lints,run", [("m.s", s2)]))
     out = run_lines_isolated(RVH_DEBUG, reqs, chunk=60)
+    # diagnostics whose *location* the real code picks by hash-table order (several first uses at
+    # the same distance, F-14; exit choice of a multi-return function, F-28) are not functions of
+    # the program: the model lists the alternatives. They are left out of the comparison on both
+    # sides (by code and line, which a renaming preserves); this keeps an order-dependent pick from
+    # being mistaken for an effect of the renaming.
+    from common import DRIVER
+    uniq = sorted(set(s for s, _, _, _ in cases))
+    m_asc = run_lines_isolated(DRIVER, [pipe_req("lints", [("m.s", s)]) for s in uniq], chunk=100, timeout=120)
+    m_desc = run_lines_isolated(DRIVER, [pipe_req("lints", [("m.s", s)]) + " desc" for s in uniq], chunk=100,
+                                timeout=120)
+    amb = {}
+    order_dep = set()
+    strip = lambda blk: sorted(re.sub(r" (alts|site)=\S+", "", l) for l in blk if l.startswith("LINT "))
+    for s, ma, md in zip(uniq, m_asc, m_desc):
+        lines_ = set()
+        for ml in ma + md:
+            m = re.search(r" alts=\[(\S*)\]", ml)
+            if ml.startswith("LINT ") and m:
+                for alt in m.group(1).split(","):
+                    loc = parse_loc(alt)
+                    if loc:
+                        lines_.add((field(ml, "code"), loc["sl"]))
+        amb[s] = lines_
+        if strip(ma) != strip(md):
+            order_dep.add(s)
     first = None
     nontrivial = 0
     kinds = {}
+    skipped = 0
     for j, (s, pm, lm, s2) in enumerate(cases):
         a, b = out[2 * j], out[2 * j + 1]
         if (a and a[0].startswith(("HANG", "CRASH"))) or (b and b[0].startswith(("HANG", "CRASH"))):
             continue
-        ka = sorted(diag_key(l, (pm, lm)) for l in a if l.startswith("LINT "))
-        kb = sorted(diag_key(l) for l in b if l.startswith("LINT "))
+        if s in order_dep:
+            skipped += 1
+            continue
+        drop = lambda ks: [k for k in ks if (k[0], k[1]) not in amb[s]]
+        ka = drop(sorted(diag_key(l, (pm, lm)) for l in a if l.startswith("LINT ")))
+        kb = drop(sorted(diag_key(l) for l in b if l.startswith("LINT ")))
         for c, _, _ in ka:
             kinds[c] = kinds.get(c, 0) + 1
         if ka:
             nontrivial += 1
         ra = sorted((field(l, "title"), parse_loc(field(l, "at"))["sl"]) for l in a if l.startswith("RUN "))
         rb = sorted((field(l, "title"), parse_loc(field(l, "at"))["sl"]) for l in b if l.startswith("RUN "))
+        if amb[s]:
+            ra = rb = []
         if (ka != kb or (ra != rb and not lm)) and first is None:
             first = {"what": "renaming changes the diagnostics: " +
                              f"original(renamed)={[x for x in ka if x not in kb][:3]} vs renamed program="
@@ -78,6 +110,8 @@ def run(res, tier, seed):
                        "the real diagnostics of the renamed program must equal the renamed diagnostics of the "
                        "original (code, line, designated text); non-trivial = pair with at least one diagnostic")
     res.cov["samples"] = [{"program": cases[0][0], "map": cases[0][1]}]
-    res.cov["input_distribution"] = {"diagnostic_kinds": kinds, "pairs": len(cases)}
+    res.cov["input_distribution"] = {"diagnostic_kinds": kinds, "pairs": len(cases),
+                                     "skipped_exit_choice_order_dependent": skipped,
+                                     "programs_with_order_dependent_locations": sum(1 for v in amb.values() if v)}
     res.cov["traces_validated_against_impl"] = len(cases) * 2
     conclude(res, "C14", first, None, proof_ok, "no renaming that changes the diagnostics found")
